@@ -23,6 +23,7 @@ class MethodSpec:
         self.self_lt = None
         self.nested = []          # (impl blocks) nested dependency calls: (method, fn_id, arg, is_async)
         self.pre = ""             # extra statements at the start of an implementation body
+        self.typed_recv = False   # write the receiver as `self: &Self`
 
     def generics_text(self, extra_first=None):
         items = list(self.lifetimes)
@@ -47,7 +48,10 @@ class MethodSpec:
         raise ValueError(self.ret)
 
     def trait_sig(self):
-        ps = ["&%sself" % ((self.self_lt + " ") if self.self_lt else "")] + [p.decl() for p in self.params]
+        recv = "&%sself" % ((self.self_lt + " ") if self.self_lt else "")
+        if self.typed_recv and not self.self_lt:
+            recv = "self: &Self"
+        ps = [recv] + [p.decl() for p in self.params]
         return "%sfn %s%s(%s)%s" % ("async " if self.is_async else "", self.name, self.generics_text(), ", ".join(ps), self.ret_text())
 
     def logged(self):
@@ -100,6 +104,7 @@ def random_method(rng, name, allow_async=True, allow_generic=True, dyn_safe=Fals
         m.params.append(Param(TYPES[tkey], form, [nm] if form == "plain" else []))
         last = tkey
     m.attrs = rng.sample(METHOD_ATTRS, rng.randint(0, 2)) if rng.random() < 0.4 else []
+    m.typed_recv = rng.random() < 0.12
     rets = ["owned", "owned", "unit", "borrow_self", "borrow_arg"]
     if allow_generic and not dyn_safe:
         rets.append("generic")
